@@ -379,14 +379,20 @@ impl EcdhPublicParams {
                 })
             }
             ECCCurve::P256 => {
+                // uncompressed SEC1 point: prefix "0x04" followed by the two coordinates
+                ensure_eq!(p.len(), 65, "invalid public key length");
                 let p = p256::PublicKey::from_sec1_bytes(p.as_ref())?;
                 Ok(EcdhPublicParams::P256 { p, hash, alg_sym })
             }
             ECCCurve::P384 => {
+                // uncompressed SEC1 point: prefix "0x04" followed by the two coordinates
+                ensure_eq!(p.len(), 97, "invalid public key length");
                 let p = p384::PublicKey::from_sec1_bytes(p.as_ref())?;
                 Ok(EcdhPublicParams::P384 { p, hash, alg_sym })
             }
             ECCCurve::P521 => {
+                // uncompressed SEC1 point: prefix "0x04" followed by the two coordinates
+                ensure_eq!(p.len(), 133, "invalid public key length");
                 let p = p521::PublicKey::from_sec1_bytes(p.as_ref())?;
                 Ok(EcdhPublicParams::P521 { p, hash, alg_sym })
             }
